@@ -414,6 +414,17 @@ Example C04_example_rebuild_with_plan_rerun :
   attached (KStep, ExR.u) (run_ops ExR.ops ExR.q) = false.
 Proof. exact ExR_example. Qed.
 
+(* startup.rescan_env_vars, translated statement by statement (the translator interprets the loop over the env_var
+   rows for a row whose current value differs / does not differ, so `continue` on equality and an `if` on inequality
+   give the same pair): a row of an attached step is collected for a rerun exactly when the value differs - the
+   definition env_row_changed of the model.  A variant that collects other rows is translated and breaks this. *)
+Theorem C04_env_rescan_marks_iff_the_value_differs :
+  gen_env_rescan_marks = (true, false) /\
+  (forall cur s r, attached (KStep, ev_step r) s = true ->
+     env_row_changed cur s r =
+     if on_eqb (cur (ev_name r)) (ev_value r) then snd gen_env_rescan_marks else fst gen_env_rescan_marks).
+Proof. exact env_rescan_rule_tie. Qed.
+
 (* Workflow.mark_step_pending and Executor._reset_step_to_pending, translated statement by statement (the
    translator interprets the functions, so an if/else instead of an early return or a guarded debug log give the
    same tables, while a changed effect gives another table and breaks this theorem by name):
